@@ -415,7 +415,16 @@ class VByteArray(object):
         elif isinstance(src, (_rbytes, _rbytearray)):
             self._d = list(src)
         elif isinstance(src, SymInt):
-            self._d = [0] * cur().concretize(src)
+            from .stubs import cur_state
+            st = cur_state()
+            if st is not None and st.get('symlen_bytearray'):
+                neg = src < 0
+                if (neg if isinstance(neg, bool) else cur().branch(neg.e)):
+                    raise ValueError("negative count")
+                self._symlen = src      # length-only placeholder (contents never touched by the sizing harness)
+                self._d = []
+            else:
+                self._d = [0] * cur().concretize(src)
         elif isinstance(src, _rint):
             self._d = [0] * src
         elif isinstance(src, _rstr):
